@@ -25,6 +25,13 @@
                   a MazeDatasetCollectionConfig: om / bm = raw member configs before / after the JSON round
                   trip, bname = name after it, h3 = hash of an independently built twin, hb = hash after
    kind = "cline" {res, colls, hashes}          collections [{name, members}] (as requested), all pairs judged
+   kind = "edit"  {res, via, field, before, after, fresh, reload, h0, f0, h1, f1, hf, ff, hl, fl, leq}
+                  a HISTORY on one config object: build -> hash/fname (h0, f0; raw content `before`) -> edit in
+                  place (via = setattr | item | append | lib:<operation>; field = the edited field, "*" when the
+                  library chose) -> hash/fname again (h1, f1; raw content `after`); fresh / hf / ff = raw content,
+                  hash, file name of a FRESHLY constructed config holding the edited content; reload / hl / fl /
+                  leq = load(json(serialize(edited object))), its hash, file name, and the library's ==
+   kind = "cedit" the same history on a MazeDatasetCollectionConfig; before / after / fresh / reload = {name, members}
    res fields: "ok" | "raise:<exception class>@<stage>".
 
    Layer P (the statement): no exception; every field of the reloaded config equals the original
@@ -33,6 +40,9 @@
    repeatable, equal in every process, different for configs that differ in one listed field (and for
    every pair of distinct configs of a family); file name = the documented format assembled HERE from
    the logged pieces.
+   Histories: after an in-place edit the identity follows the CURRENT content (ConfigId!HashFollowsInv):
+   it differs from the identity before the edit, equals the identity of a fresh config with the same
+   content, and the reloaded copy is equal and has the same hash and file name.
    Collections: members survive the round trip, identity repeatable / stable / different for different
    collections (Layer P); their file name "collected-<name>-n<short(total count)>-h<hash mod 10^5>" is
    NOT fixed by the statement (no single grid size / generator) -> Layer M.
@@ -125,6 +135,23 @@ CLineClauses(r) ==
       Separated(a, b) == r.hashes[a] = r.hashes[b] => CollEq(r.colls[a], r.colls[b]) IN
   Flag(Len(r.hashes) = n /\ AllPairs(n, Separated), "hash_collision:collection")
 
+\* histories with an in-place edit; `differs` = content really changed, freshSame / reloadSame = raw content comparisons
+EditJudge(r, differs, wellFormed, freshSame, reloadSame) ==
+  Flag(differs /\ wellFormed, "H:edit_malformed")
+  \cup Flag(freshSame, "H:fresh_not_equal")
+  \cup Flag(r.h1 # r.h0 /\ r.h1 = r.hf, "hash_stale_after_in_place_edit")
+  \cup Flag(r.f1 = r.ff, "fname_stale_after_in_place_edit")
+  \cup Flag(reloadSame /\ r.leq, "reloaded_copy_not_equal")
+  \cup Flag(r.hl = r.h1 /\ r.fl = r.f1, "reloaded_copy_hashes_differently")
+RawSame(a, b) == CfgEq(a, b) /\ a.slmin = b.slmin /\ a.slmax = b.slmax
+EditClauses(r) ==
+  LET changed == DiffFields(r.before, r.after) IN
+  EditJudge(r, changed # {}, r.field = "*" \/ changed = {r.field}, RawSame(r.fresh, r.after), RawSame(r.reload, r.after))
+CollRawEq(a, b) == /\ a.name = b.name /\ Len(a.members) = Len(b.members)
+                   /\ \A k \in 1..Len(a.members) : RawSame(a.members[k], b.members[k])
+CEditClauses(r) ==
+  EditJudge(r, ~CollRawEq(r.before, r.after), TRUE, CollRawEq(r.fresh, r.after), CollRawEq(r.reload, r.after))
+
 ProcClauses(r) ==
   Flag(\A k \in 1..Len(r.obs) : r.obs[k].res = "ok", "unexpected_exception")
   \cup Flag(Len(r.obs) >= 2, "H:too_few_processes")
@@ -141,13 +168,15 @@ Clauses(r) ==
          [] r.kind = "proc" -> ProcClauses(r)
          [] r.kind = "coll" -> CollClauses(r)
          [] r.kind = "cline" -> CLineClauses(r)
+         [] r.kind = "edit" -> EditClauses(r)
+         [] r.kind = "cedit" -> CEditClauses(r)
          [] OTHER           -> {"H:unknown_kind"}
 
 VARIABLES l, bad
-Init == l = 1 /\ bad = {} /\ i1 = 0 /\ i2 = 0
-Next == /\ l <= Len(Log) /\ l' = l + 1 /\ UNCHANGED <<i1, i2>>
+Init == l = 1 /\ bad = {} /\ i1 = 0 /\ i2 = 0 /\ hs = 0
+Next == /\ l <= Len(Log) /\ l' = l + 1 /\ UNCHANGED <<i1, i2, hs>>
         /\ bad' = bad \cup (LET cs == Clauses(Log[l]) IN IF cs = {} THEN {} ELSE {[id |-> Log[l].id, c |-> cs]})
-Spec == Init /\ [][Next]_<<l, bad, i1, i2>>
+Spec == Init /\ [][Next]_<<l, bad, i1, i2, hs>>
 Done == (l = Len(Log) + 1) =>
           ndJsonSerialize(IOEnv.VERIF_OUT, <<[id |-> -1, c |-> {ToString(Len(Log))}]>> \o SetToSeq(bad))
 =============================================================================
